@@ -228,6 +228,11 @@ func verifCanary(label string, cond bool) {}
 //@ ufunc psSeedLen(unsafe.Pointer) int
 //@ ufunc psBase(unsafe.Pointer) int
 //@ ufunc digestLen(crypto.Hash) int
+// provenance of one HMAC digest (keyed by the digest's array): computed with which key bytes over which message
+//@ ufunc hmacKey(unsafe.Pointer) unsafe.Pointer
+//@ ufunc hmacKeyLen(unsafe.Pointer) int
+//@ ufunc hmacMsg(unsafe.Pointer) unsafe.Pointer
+//@ ufunc hmacMsgLen(unsafe.Pointer) int
 
 // HMAC over a hash function (crypto/hmac, external): a digest of the hash's length, never an error
 // (hash.Hash.Write never fails)
@@ -237,6 +242,7 @@ func verifCanary(label string, cond bool) {}
 //@   requires s != nil
 //@   assigns nothing
 //@   ensures result1 == nil && len(result0) == digestLen(s.Hash) && fresh(result0)
+//@   ensures hmacKey(ref(result0)) == ref(s.Secret) && hmacKeyLen(ref(result0)) == len(s.Secret) && hmacMsg(ref(result0)) == ref(msg) && hmacMsgLen(ref(result0)) == len(msg)
 //@   ensures (s.Hash == 3 ==> digestLen(s.Hash) == 20) && (s.Hash == 5 ==> digestLen(s.Hash) == 32)
 
 //@ func generateKeys
@@ -249,6 +255,7 @@ func verifCanary(label string, cond bool) {}
 //@           off(result.encryption) == off(result.signing) + signingLength && off(result.iv) == off(result.signing) + signingLength + encryptingLength
 //@   ensures [C14:own-stream] arr(result.signing) == 0 || fresh(result.signing)
 //@   loop 0 invariant 0 <= len(p) && (arr(p) == 0 || fresh(p)) && (arr(a) == 0 || fresh(a)) && len(a) == digestLen(hmac.Hash) && hmac != nil
+//@   loop 0 invariant [C14:chain-uses-whole-secret] hmacKey(ref(a)) == ref(hmac.Secret) && hmacKeyLen(ref(a)) == len(hmac.Secret) && len(hmac.Secret) == len(old(hmac.Secret))
 //@   loop 0 decreases signingLength + encryptingLength + encryptingBlockSize - len(p)
 
 // what the HMAC loop computes (assumed): the stream is P_SHA with this hash, this secret, this seed
